@@ -170,10 +170,8 @@ func packedLookup(b *yx.Built, state, a int) int {
 	L := b.Root.LALR1
 	nt := len(L.G.VtSet)
 	off := L.OffsetTable[state] + a
-	if off < 0 {
-		return L.GenErrorCode()
-	}
-	if off >= len(L.CheckTable) || L.CheckTable[off] != state {
+	// a slot outside the packed vector is a blank cell (default of the row / goto column)
+	if off < 0 || off >= len(L.CheckTable) || L.CheckTable[off] != state {
 		if a > nt {
 			return L.GoToDef[a-nt-1]
 		}
